@@ -209,7 +209,26 @@ func (x *Exec) typingAxiom(st *State, name, v string) {
 	if wf == "true" {
 		return
 	}
+	if i := strings.LastIndex(v, "@e"); i >= 0 && allDigits(v[i+2:]) {
+		// the canonical version of an epoch is the heap as it was when the epoch began: the
+		// references it holds were allocated before that point (not merely before now)
+		if cur := x.heap(st, "$alloc", "Int"); cur != "$alloc"+v[i:] {
+			wf = strings.ReplaceAll(wf, " "+cur+")", " $alloc"+v[i:]+")")
+		}
+	}
 	st.emit(fmt.Sprintf("(assert (forall (%s) (! %s :pattern (%s))))", binders, wf, cell))
+}
+
+func allDigits(s string) bool {
+	if s == "" {
+		return false
+	}
+	for _, c := range s {
+		if c < '0' || c > '9' {
+			return false
+		}
+	}
+	return true
 }
 
 func (x *Exec) freshConst(st *State, prefix, srt string) string {
@@ -548,6 +567,10 @@ func (x *Exec) storeTerm(st *State, l *Loc, t string) {
 		x.setHeap(st, hn, hs, sto(h, arr, sto(sel(h, arr), abs, t)))
 		// ground fact in at_T form (creates the term quantifier triggers look for)
 		st.assume(eq(app(x.atFn(l.Elem), st.heaps[hn], l.Arr, l.Idx), t))
+		// pointwise frame in at_T form (a consequence of the at_T axiom and the store): every other
+		// element read carries over, so invariants stated with at_T match across the store
+		at := x.atFn(l.Elem)
+		st.emit(fmt.Sprintf("(assert (forall ((s Slice) (i Int)) (! (=> (or (not (= (s_arr s) %s)) (not (= (+ (s_off s) i) %s))) (= (%s %s s i) (%s %s s i))) :pattern ((%s %s s i)))))", arr, abs, at, st.heaps[hn], at, h, at, st.heaps[hn]))
 	case LArrIdx:
 		x.storeTerm(st, l.Parent, sto(x.loadTerm(st, l.Parent), l.Idx, t))
 	case LGlobal:
